@@ -115,7 +115,7 @@ CHECKS = {
               "assigned while dead, deallocated while alive or twice; every block is released with the element count it was requested with (count terms "
               "compared structurally); each array ends in INV; no block is unowned. With a trivially default constructible element the sizing "
               "constructors and reextent(x) contain no element-construction event. INV at every public boundary gives exactly-once construction / "
-              "destruction over all histories by induction. R08.trivial also for 0-dimensional arrays (their own class specialisation; separate driver). R08.ctor-indep: with an element type that is only trivially destructible (not trivially default constructible) every operation reaches the same element-construction primitives as with the fully observable element (differential instantiation)."),
+              "destruction over all histories by induction. R08.trivial also for 0-dimensional arrays (their own class specialisation; separate driver). R08.ctor-indep: with an element type that is only trivially destructible (not trivially default constructible) every operation reaches the same element-construction primitives as with the fully observable element (differential instantiation). R08.trivial also with an element that is trivially default constructible but not trivial (an element-construction event counts only when the helper it names, interpreted with its callees inlined, reaches the allocator's construct for that type). R08.prim / R08.prim.site: the destroy primitive's own body destroys n distinct consecutive slots from or before its pointer argument, and every call site in the container layer (0-D arrays included) passes the matching end of the range."),
         design_ref="DESIGN.md 3/C08, 2.1", note=ANOTE,
         technique="typestate analysis by path-sensitive abstract interpretation of -O0 LLVM IR",
     ),
@@ -136,7 +136,7 @@ CHECKS = {
               "quick, 8 thorough): allocate / deallocate only through the array's own alloc_ member; every block released through an allocator value "
               "equal to the allocating one; copy construction uses select_on_container_copy_construction; allocator-extended constructors use the "
               "supplied allocator; alloc_ is replaced exactly when the trait says so; at every normal exit the releasing allocator equals the "
-              "producing one unless an equality test dominates. Three root causes on the pinned tree are known findings. An allocator-extended constructor's allocator is a copy of the argument itself (not select_on_container_copy_construction of it)."),
+              "producing one unless an equality test dominates. Three root causes on the pinned tree are known findings. An allocator-extended constructor's allocator is a copy of the argument itself (not select_on_container_copy_construction of it). R10.pocs decides the final allocator of both operands of a swap."),
         design_ref="DESIGN.md 3/C10", note=ANOTE,
         technique="allocator-value tracking in the abstract interpreter; differential instantiation over trait configurations",
     ),
